@@ -197,6 +197,70 @@ fn mask(s: &str) -> String {
     o
 }
 
+/// Two or three documents, each in its own source format and spelling, go
+/// through ONE translator (detection wherever detection of the slice names the
+/// right format). Every output document must be the same bytes as when that
+/// document is translated alone - whose value the single-document oracle judges.
+fn shared_translator_batch(seed: u64, i: usize, base: &Val, acc: &mut Acc) {
+    use crate::run::{run_history, Call};
+    let mut rng = Rng::derive(seed, 0xc01b, i as u64);
+    let to = fmts::STREAMING[i % 3];
+    let n = rng.range(2, 3);
+    let mut calls: Vec<Call> = vec![];
+    let mut srcs = vec![];
+    for j in 0..n {
+        let mut cl = Classes::default();
+        let mut doc = if j == 0 { base.clone() } else { gen_doc(&mut rng, &GenOpts::common(), &mut cl) };
+        let mut src = ALL[rng.below(4)];
+        if src == Fmt::Toml {
+            match tomlify(&doc) {
+                Some(d) => doc = d,
+                None => src = Fmt::Json,
+            }
+        }
+        let mut feats = Feats::default();
+        let plain = rng.chance(1, 2);
+        let bytes = spell(src, &doc, &mut rng, &mut feats, plain);
+        let from = if rng.chance(2, 3) && detected_as(&bytes) == Some(src) { None } else { Some(src) };
+        let mode = match rng.below(4) {
+            0 | 1 => Mode::Slice,
+            2 => Mode::Reader(Sched::All),
+            _ => Mode::Reader(Sched::Fixed(*rng.pick(&[3usize, 7, 4096]))),
+        };
+        srcs.push(src);
+        calls.push(Call { input: bytes, from, mode });
+    }
+    let alone: Vec<_> = calls.iter().map(|c| run_mode(&c.input, &c.mode, c.from, to)).collect();
+    if alone.iter().any(|o| !o.verdict.is_ok()) {
+        // the single-document oracle deals with it
+        acc.count("shared_translator_batches_skipped");
+        return;
+    }
+    acc.evals += 1;
+    acc.count("shared_translator_batches");
+    if calls.iter().filter(|c| c.from.is_none()).count() >= 2 {
+        acc.count("shared_translator_batches_with_two_detections");
+    }
+    let (verdicts, wlog) = run_history(&calls, to, crate::mon::MonWriter::new(), true);
+    let case = || json!({"part": "shared_translator", "seed": seed, "index": i, "to": to.name(), "calls": calls.iter().zip(&srcs).map(|(c, s)| json!({"source": s.name(), "from": fmts::from_name(c.from), "mode": c.mode.describe(), "input_hex": hex(&c.input), "input_preview": preview(&c.input, 120)})).collect::<Vec<_>>()});
+    if let Some(bad) = verdicts.iter().position(|v| !v.is_ok()) {
+        acc.violation(Violation { sig: format!("shared translator ->{}: a call fails that succeeds alone: {}", to.name(), ev::truncate(&mask(verdicts[bad].text()), 70)), case: case(), observed: format!("call {bad} of {n}: {}", verdicts[bad].show()), expected: "Ok, as when translated alone".into() });
+        return;
+    }
+    let mut off = 0;
+    for (j, o) in alone.iter().enumerate() {
+        let got = wlog.bytes.get(off..(off + o.out.len()).min(wlog.bytes.len())).unwrap_or(&[]);
+        if got != &o.out[..] {
+            acc.violation(Violation { sig: format!("shared translator {}->{}: a document is written differently than when translated alone", srcs[j].name(), to.name()), case: case(), observed: format!("document {j} of {n}: [{}] on the shared translator, [{}] alone", preview(got, 160), preview(&o.out, 160)), expected: "the same bytes (hence the same value) as when translated alone".into() });
+            return;
+        }
+        off += o.out.len();
+    }
+    if off != wlog.bytes.len() {
+        acc.violation(Violation { sig: format!("shared translator ->{}: extra output", to.name()), case: case(), observed: format!("{} bytes beyond the {n} documents: [{}]", wlog.bytes.len() - off, preview(&wlog.bytes[off..], 120)), expected: "nothing else".into() });
+    }
+}
+
 fn detected_as(input: &[u8]) -> Option<Fmt> {
     xt::verif::detect_slice(input).ok().flatten().map(Fmt::from_xt)
 }
@@ -259,6 +323,9 @@ pub fn run(ctx: &Ctx) -> i32 {
                 }
             }
         }
+        if !heavy {
+            shared_translator_batch(seed, i, &base, acc);
+        }
         // non-finite floats for the formats that have them
         if i % 4 == 0 {
             let nf = Val::Map(vec![
@@ -279,7 +346,7 @@ pub fn run(ctx: &Ctx) -> i32 {
         }
     });
     let rule = format!(
-        "{} generated documents of the common model (scalar pools aimed at type look-alike strings, YAML indicators, control/BOM/non-character/astral code points, integer boundaries of every width, 17-digit and special floats; depth up to 64; wide collections at MessagePack header thresholds; every 150th document a 'heavy' one: 4 095..70 000 entries, or tens of KiB of multi-byte text) x 16 (source,target) pairs (TOML pairs on the TOML-representable restriction) x 3 spellings (1 conventional, 2 hostile) x [slice, 1 scheduled reader] x [explicit, detected when the detect hook names the source format]; oracle = independent reader of the target; distinct non-trivial = distinct documents containing >= 1 hostile-class scalar or depth >= 3",
+        "{} generated documents of the common model (scalar pools aimed at type look-alike strings, YAML indicators, control/BOM/non-character/astral code points, integer boundaries of every width, 17-digit and special floats; depth up to 64; wide collections at MessagePack header thresholds; every 150th document a 'heavy' one: 4 095..70 000 entries, or tens of KiB of multi-byte text) x 16 (source,target) pairs (TOML pairs on the TOML-representable restriction) x 3 spellings (1 conventional, 2 hostile) x [slice, 1 scheduled reader] x [explicit, detected when the detect hook names the source format]; plus one batch per document of 2-3 documents in different source formats through ONE translator (detection where possible), each output document compared with its translation alone; oracle = independent reader of the target; distinct non-trivial = distinct documents containing >= 1 hostile-class scalar or depth >= 3",
         n
     );
     ev::finish(
@@ -294,7 +361,7 @@ pub fn run(ctx: &Ctx) -> i32 {
             extra: serde_json::Map::new(),
             exhaustive: false,
             min_distinct: 200,
-            must_reach: vec![("heavy_documents".into(), 10), ("detected_runs".into(), 100), ("class_lookalike_strings".into(), 50), ("class_float_values".into(), 50)],
+            must_reach: vec![("heavy_documents".into(), 10), ("detected_runs".into(), 100), ("class_lookalike_strings".into(), 50), ("class_float_values".into(), 50), ("shared_translator_batches".into(), 1000), ("shared_translator_batches_with_two_detections".into(), 100)],
         },
         acc,
     )
@@ -302,6 +369,21 @@ pub fn run(ctx: &Ctx) -> i32 {
 
 pub fn replay(v: &Value) -> i32 {
     let c = &v["case"];
+    if c["part"].as_str() == Some("shared_translator") {
+        let (Some(seed), Some(i)) = (c["seed"].as_u64(), c["index"].as_u64()) else { return 2 };
+        let mut rng = Rng::derive(seed, 0xc01, i);
+        let mut cl = Classes::default();
+        let base = gen_doc(&mut rng, &GenOpts::common(), &mut cl);
+        let mut acc = Acc::default();
+        shared_translator_batch(seed, i as usize, &base, &mut acc);
+        return if acc.vio_count > 0 {
+            println!("VIOLATION property=C01 replay=<this file> (reproduced): {}", acc.violations[0].observed);
+            1
+        } else {
+            println!("not reproduced");
+            0
+        };
+    }
     let (Some(input), Some(from), Some(src), Some(to), Some(mode)) = (c["input_hex"].as_str().and_then(unhex), c["from"].as_str().and_then(fmts::parse_from), c["source_format"].as_str().and_then(Fmt::parse), c["to"].as_str().and_then(Fmt::parse), c["mode"].as_str().and_then(Mode::parse)) else {
         println!("bad replay case");
         return 2;
